@@ -472,9 +472,9 @@ pub fn main(args: &[String]) -> i32 {
         obs::api("flush_end", &[], id, res.is_ok() as u64, 0);
         let io_total = feoxdb::verif::io_calls();
         heal = Some(match &res {
-            Ok(()) => json!({"e": "heal", "ok": true, "how": "flush", "io_calls": io_total}),
-            Err(feoxdb::FeoxError::IndeterminateWrite(_)) => json!({"e": "heal", "ok": true, "how": "needs-reopen", "io_calls": io_total}),
-            Err(e) => json!({"e": "heal", "ok": false, "how": format!("flush on a healthy device failed: {e:?}"), "io_calls": io_total}),
+            Ok(()) => json!({"e": "heal", "ok": true, "how": "flush", "io_calls": io_total, "mode": fault_mode}),
+            Err(feoxdb::FeoxError::IndeterminateWrite(_)) => json!({"e": "heal", "ok": true, "how": "needs-reopen", "io_calls": io_total, "mode": fault_mode}),
+            Err(e) => json!({"e": "heal", "ok": false, "how": format!("flush on a healthy device failed: {e:?}"), "io_calls": io_total, "mode": fault_mode}),
         });
     }
     let mut refill_res: Option<Value> = None;
